@@ -1,10 +1,15 @@
 import QR.Model.Compile
 import QR.Spec.Penalty
+import QR.Spec.MaskChoice
 import QR.Proofs.Except
-import QR.Proofs.SourceTie
+import QR.Proofs.MaskChoice
+import QR.Proofs.SourceTieC09
 import QR.Proofs.Pinned
 /-
 C09 - automatic mask = first minimiser of the penalty over the eight trial symbols; explicit mask used as given.
+Against the Spec (`C09_chooseMask`): the mask recorded in and applied to a compiled symbol is `Spec.chooseMask` of that
+symbol - the ISO minimiser (lowest penalty over the eight candidate symbols, format / version information areas and
+dark module light, lowest number on ties) computed from the finished symbol alone.
 -/
 namespace QR.Props
 open QR QR.Model
@@ -86,6 +91,85 @@ theorem C09_auto_recorded (cfg : Cfg) (segs : List Seg) (hm : cfg.mask = none)
   injection h2 with h2 h3
   subst h1; subst h2; subst h3
   exact ⟨data, hd, hb, hM⟩
+
+/-! ### the automatic choice against the ISO definition -/
+
+/-- **trial symbols**: in the symbol `best_mask_pattern` builds for a mask (`test = True`) every format cell, every
+    version cell (v ≥ 7) and the dark module is light -/
+theorem C09_trial_blank (v level mask : Nat) (data : List Nat)
+    (h1 : 1 ≤ v) (h40 : v ≤ 40) (hl : level < 4) (hk : mask < 8)
+    (M : Mat) (h : makeImpl v level true mask data = .ok M) :
+    ∀ r c, r < 4 * v + 17 → c < 4 * v + 17 →
+      (Spec.inFormat (4 * v + 17) r c = true ∨ Spec.inVersion v (4 * v + 17) r c = true ∨
+        Spec.isDarkModule (4 * v + 17) r c = true) → M.get r c = some false :=
+  fun r c hr hc ha => MaskChoice.trial_blank v level mask data h1 h40 hl hk M h r c hr hc ha
+
+/-- **trial symbol = ISO candidate**: the trial symbol for mask `i` is, cell for cell, the candidate symbol the Spec
+    derives from the final symbol (built with mask `m`) alone: information areas light, function modules unchanged, data
+    modules re-masked from `m` to `i`.  `S` is any Boolean view of the final matrix (`symOf M` of C01 is one). -/
+theorem C09_trial_candidate (v level m i : Nat) (data : List Nat)
+    (h1 : 1 ≤ v) (h40 : v ≤ 40) (hl : level < 4) (hm : m < 8) (hi : i < 8)
+    (M Mi : Mat) (hM : makeImpl v level false m data = .ok M) (hMi : makeImpl v level true i data = .ok Mi)
+    (S : Spec.Sym) (hn : S.n = 4 * v + 17)
+    (hS : ∀ r c, r < 4 * v + 17 → c < 4 * v + 17 → S.get r c = (M.get r c).getD false) :
+    Mi.toBMat = Spec.candidate S v m i :=
+  MaskChoice.trial_candidate v level m i data h1 h40 hl hm hi M Mi hM hMi S ⟨hn, hS⟩
+
+/-- the score the code gives a trial symbol is the ISO penalty of the corresponding candidate (C08 on the trial matrix) -/
+theorem C09_trial_score (v level m i : Nat) (data : List Nat)
+    (h1 : 1 ≤ v) (h40 : v ≤ 40) (hl : level < 4) (hm : m < 8) (hi : i < 8)
+    (M Mi : Mat) (hM : makeImpl v level false m data = .ok M) (hMi : makeImpl v level true i data = .ok Mi)
+    (S : Spec.Sym) (hn : S.n = 4 * v + 17)
+    (hS : ∀ r c, r < 4 * v + 17 → c < 4 * v + 17 → S.get r c = (M.get r c).getD false) :
+    lostPoint Mi.toBMat = Spec.penalty (Spec.candidate S v m i) :=
+  MaskChoice.trial_score v level m i data h1 h40 hl hm hi M Mi hM hMi S ⟨hn, hS⟩
+
+/-- `makeImpl` level: if `best_mask_pattern` returned `m` for the codewords and the final symbol was built with `m`, then
+    `m` is the ISO choice computed from the final symbol -/
+theorem C09_chooseMask_makeImpl (v level m : Nat) (data : List Nat)
+    (h1 : 1 ≤ v) (h40 : v ≤ 40) (hl : level < 4)
+    (hb : bestMaskPattern v level data = .ok m) (M : Mat) (hM : makeImpl v level false m data = .ok M)
+    (S : Spec.Sym) (hn : S.n = 4 * v + 17)
+    (hS : ∀ r c, r < 4 * v + 17 → c < 4 * v + 17 → S.get r c = (M.get r c).getD false) :
+    Spec.chooseMask S v m = m := by
+  obtain ⟨Ms, hMs⟩ := MaskChoice.trials_exist v level data h1 h40
+  have hauto := C09_auto v level data Ms hMs
+  rw [hb] at hauto
+  have hm' : m = Spec.argminFirst 8 fun i => lostPoint (Ms i).toBMat := Except.ok.inj hauto
+  have hm : m < 8 := MaskChoice.mask_lt_of_makeImpl v level m false data M hM
+  rw [MaskChoice.chooseMask_of_trials v level m data h1 h40 hl hm M hM Ms hMs S ⟨hn, hS⟩]
+  exact hm'.symm
+
+/-- **C09 (main, against the Spec)**: with no mask requested, the mask recorded in and applied to the compiled symbol is
+    exactly the mask ISO 7.8.3 selects, computed by the Spec from that symbol alone: re-mask the data region with each of
+    the eight patterns, leave format / version information and dark module light, score with the four penalty rules, take
+    the lowest score, lowest number on ties.  `S` is any Boolean view of the compiled matrix (`symOf M` of C01 is one). -/
+theorem C09_chooseMask (cfg : Cfg) (hcfg : cfg.Valid) (l : Spec.Level) (hl : cfg.level = l.indicator)
+    (segs : List Seg) (hv : ∀ s ∈ segs, s.Valid) (hm : cfg.mask = none)
+    (v m : Nat) (M : Mat) (h : compile cfg segs = .ok (v, m, M))
+    (S : Spec.Sym) (hn : S.n = M.size) (hS : ∀ r c, S.get r c = (M.get r c).getD false) :
+    Spec.chooseMask S v m = m := by
+  obtain ⟨ps, hp⟩ := toPSegs_of_valid hv
+  obtain ⟨h1, h40, _, _⟩ := QR.Proofs.C03_ok_range cfg hcfg l hl segs hv ps hp v m M h
+  obtain ⟨data, _, hb, hM⟩ := C09_auto_recorded cfg segs hm v m M h
+  have hli : cfg.level < 4 := hl ▸ Sym.indicator_lt l
+  have hsize : M.size = 4 * v + 17 := by
+    obtain ⟨M', hM', hshape, _⟩ := Sym.makeImpl_spec v cfg.level m false data h1 h40 hli
+      (MaskChoice.mask_lt_of_makeImpl v cfg.level m false data M hM)
+    rw [hM] at hM'
+    rw [Except.ok.inj hM']
+    exact hshape.1
+  exact C09_chooseMask_makeImpl v cfg.level m data h1 h40 hli hb M hM S (hn.trans hsize) (fun r c _ _ => hS r c)
+
+/-- non-vacuity / smoke test (`C09_trial_blank`, `C09_trial_candidate`): version 1-M, final symbol with mask 3, trial symbol
+    for mask 5: the trial matrix is the Spec candidate; its dark module and a format cell are light, the final dark module
+    is dark.  (The whole of `C09_chooseMask` on `compile` with `mask = none`, v = 1, 2 and 7, was checked by `#eval`; in the
+    kernel the eight `lost_point` evaluations alone take about a minute, so it is not repeated here; the hypotheses of
+    `C09_chooseMask` are satisfiable by `C03_total` / `C03_iff`.) -/
+example : (match makeImpl 1 0 false 3 [64, 38, 134, 144, 236, 17], makeImpl 1 0 true 5 [64, 38, 134, 144, 236, 17] with
+    | .ok M, .ok Mi => Mi.toBMat == Spec.candidate { n := M.size, get := fun r c => (M.get r c).getD false } 1 3 5
+        && Mi.get 13 8 == some false && M.get 13 8 == some true && Mi.get 8 2 == some false
+    | _, _ => false) = true := by decide +kernel
 
 /-- non-vacuity: a tie between masks 1 and 2 keeps the lower number; a later strict minimum wins -/
 example : Spec.argminFirst 8 (fun i => [9, 4, 4, 7, 4, 8, 9, 9].getD i 0) = 1 := by decide
